@@ -51,3 +51,266 @@ def generate_and_dump(fixture_path, ctx):
     bodies = M.parse_mir(open(mir_path).read())
     load_source_types(src)
     return bodies, work, text
+
+
+# ------------------------------------------------------------------------------------------------ fixture model + reference
+
+XS = 'http://www.w3.org/2001/XMLSchema'
+FACETS = ('minInclusive', 'maxInclusive', 'minExclusive', 'maxExclusive', 'length', 'minLength', 'maxLength')
+INT_BASES = {'int': (-2**31, 2**31 - 1), 'integer': None, 'long': (-2**63, 2**63 - 1), 'short': (-2**15, 2**15 - 1)}
+
+
+class FixtureModel:
+    """what the fixture schema declares, read independently of zeep (simple types with their derivation chain,
+    complex types with their members)"""
+
+    def __init__(self, path):
+        import xml.etree.ElementTree as ET
+        root = ET.parse(path).getroot()
+        q = lambda t: '{%s}%s' % (XS, t)
+        self.simple = {}     # name -> (base local name, base is user type, {facet: value}, [enumeration])
+        self.complex = {}    # name -> [(member name, type local name, is user type, min, max|None, is attribute)]
+        for n in root:
+            if n.tag == q('simpleType'):
+                r = n.find(q('restriction'))
+                base = r.attrib['base']
+                fac, enum = {}, []
+                for c in r:
+                    loc = c.tag.split('}')[-1]
+                    if loc in FACETS:
+                        fac[loc] = int(c.attrib['value'])
+                    elif loc == 'enumeration':
+                        enum.append(c.attrib['value'])
+                self.simple[n.attrib['name']] = (base.split(':')[-1], not base.startswith('xs:'), fac, enum)
+            elif n.tag == q('complexType'):
+                mem = []
+                for c in n.iter():
+                    if c.tag == q('element'):
+                        t = c.attrib['type']
+                        mx = c.attrib.get('maxOccurs', '1')
+                        mem.append((c.attrib['name'], t.split(':')[-1], not t.startswith('xs:'), int(c.attrib.get('minOccurs', '1')), None if mx == 'unbounded' else int(mx), False))
+                    elif c.tag == q('attribute'):
+                        t = c.attrib['type']
+                        mem.append((c.attrib['name'], t.split(':')[-1], not t.startswith('xs:'), 1 if c.attrib.get('use') == 'required' else 0, 1, True))
+                self.complex[n.attrib['name']] = mem
+
+    def chain(self, st):
+        """the simple type and the user simple types it derives from, most derived first; and the built-in base"""
+        out = []
+        while st in self.simple:
+            base, user, fac, enum = self.simple[st]
+            out.append((st, fac, enum))
+            if not user:
+                return out, base
+            st = base
+        return out, st
+
+    def lexically_valid(self, st, v):
+        _, builtin = self.chain(st)
+        if builtin in INT_BASES:
+            return re.fullmatch(r'[+-]?[0-9]+', v) is not None
+        return True
+
+    def violates(self, st, v):
+        """the first declared facet (own or inherited) that the lexically valid value v violates, or None"""
+        ch, builtin = self.chain(st)
+        for name, fac, enum in ch:
+            for f, x in fac.items():
+                if f in ('length', 'minLength', 'maxLength'):
+                    n = len(v)          # XSD length of a string = number of characters (code points)
+                    bad = (f == 'length' and n != x) or (f == 'minLength' and n < x) or (f == 'maxLength' and n > x)
+                else:
+                    i = int(v)
+                    bad = (f == 'minInclusive' and i < x) or (f == 'maxInclusive' and i > x) or (f == 'minExclusive' and i <= x) or (f == 'maxExclusive' and i >= x)
+                if bad:
+                    return '%s of %s (%d)' % (f, name, x)
+            if enum and v not in enum:
+                return 'enumeration of %s %r' % (name, enum)
+        return None
+
+    def positions(self, root, max_depth=3):
+        """leaf positions below the complex type root: [(path of member names, XSD type of the leaf, kinds along the path)]"""
+        out = []
+
+        def walk(ct, prefix, kinds, depth):
+            for name, t, user, mn, mx, attr in self.complex[ct]:
+                kind = 'vec' if mx is None or mx > 1 else ('opt' if mn == 0 else 'one')
+                if user and t in self.complex:
+                    if depth < max_depth:
+                        walk(t, prefix + (name,), kinds + (kind,), depth + 1)
+                else:
+                    out.append((prefix + (name,), t, kinds + (kind,)))
+        walk(root, (), (), 1)
+        return out
+
+
+def valid_value(fm, st):
+    for v in ('ab', 'on', '5', 'abc', '1', 'x'):
+        if fm.lexically_valid(st, v) and (st not in fm.simple or fm.violates(st, v) is None):
+            return v
+    raise RuntimeError('no valid sample value for ' + st)
+
+
+# ------------------------------------------------------------------------------------------------ shape of the generated structs
+def generated_structs(text):
+    """{struct name: (module path, [(field, type text)])} read off the generated source"""
+    out = {}
+    mod = []
+    depth = 0
+    mod_depth = []
+    for m in re.finditer(r'pub mod (\w+) \{|pub struct (\w+) \{(.*?)\n\}|[{}]', text, re.S):
+        if m.group(1):
+            mod.append(m.group(1))
+            mod_depth.append(depth)
+            depth += 1
+        elif m.group(2):
+            fields = re.findall(r'pub (\w+): ([^\n]+?),?\s*(?:\n|$)', m.group(3))
+            out[m.group(2)] = ('::'.join(mod), [(f.replace('r#', ''), t.strip().rstrip(',')) for f, t in fields])
+        elif m.group(0) == '{':
+            depth += 1
+        else:
+            depth -= 1
+            if mod_depth and mod_depth[-1] == depth:
+                mod.pop()
+                mod_depth.pop()
+    return out
+
+
+def type_parts(t):
+    """'Option<mod_a::B>' -> ('opt', 'B'); 'Vec<..>' -> ('vec', ..); 'String' -> ('one', 'String')"""
+    t = t.strip()
+    m = re.fullmatch(r'(Option|Vec)<(.+)>', t)
+    if m:
+        return ('opt' if m.group(1) == 'Option' else 'vec'), m.group(2).strip()
+    return 'one', t
+
+
+class Builder:
+    """instances of the generated structs as a small AST: ('str', v) | ('struct', Name, [(field, node)]) | ('some', n) |
+    ('none',) | ('vec', [n]); valid everywhere except at the positions given in `at` {path: leaf value}"""
+
+    def __init__(self, fm, structs):
+        self.fm = fm
+        self.structs = structs
+
+    def simple_leaf(self, rust_type, xsd_type, v):
+        name = rust_type.split('::')[-1]
+        if name == 'String':
+            return ('str', v)
+        if name not in self.structs:
+            raise RuntimeError('generated type %s not found' % name)
+        fields = self.structs[name][1]
+        if [f for f, _ in fields] != ['value']:
+            raise RuntimeError('simple type %s is not generated as a one-field wrapper: %s' % (name, fields))
+        return ('struct', name, [('value', self.simple_leaf(fields[0][1], xsd_type, v))])
+
+    def inst(self, ct, at, prefix=()):
+        fm = self.fm
+        if ct not in self.structs:
+            raise RuntimeError('generated struct %s not found' % ct)
+        rust_fields = dict(self.structs[ct][1])
+        decl = {name: (t, user, mn, mx, attr) for name, t, user, mn, mx, attr in fm.complex[ct]}
+        if set(rust_fields) != set(decl):
+            raise RuntimeError('members of generated struct %s %s differ from the declared ones %s' % (ct, sorted(rust_fields), sorted(decl)))
+        out = []
+        for fname, rtype in self.structs[ct][1]:
+            t, user, mn, mx, attr = decl[fname]
+            kind, inner = type_parts(rtype)
+            here = [p for p in at if p[:len(prefix) + 1] == prefix + (fname,)]
+            is_ct = user and t in fm.complex
+
+            def mk(on):
+                if is_ct:
+                    return self.inst(t, at if on else {}, prefix + (fname,))
+                if on:
+                    return self.simple_leaf(inner, t, at[prefix + (fname,)])
+                return self.simple_leaf(inner, t, valid_value(fm, t) if t in fm.simple else 'x')
+            if kind == 'one':
+                node = mk(bool(here))
+            elif kind == 'opt':
+                if here and not is_ct and at[prefix + (fname,)] is ABSENT:
+                    node = ('none',)
+                else:
+                    node = ('some', mk(True)) if here else ('none',)
+            else:
+                # the position under test is the SECOND element (the loop must not stop after the first)
+                node = ('vec', [mk(False), mk(True)]) if here else ('vec', [])
+            out.append((fname, node))
+        return ('struct', ct, out)
+
+
+ABSENT = ('absent',)
+
+
+def to_smi(node):
+    from interp import Adt, RString, SOME, NONE, STRUCTS
+    k = node[0]
+    if k == 'str':
+        return RString(node[1])
+    if k == 'some':
+        return SOME(to_smi(node[1]))
+    if k == 'none':
+        return NONE()
+    if k == 'vec':
+        return [to_smi(n) for n in node[1]]
+    _, name, fields = node
+    d = dict(fields)
+    order = [o for o in STRUCTS[name] if set(o) == set(d)]
+    if not order:
+        raise RuntimeError('struct %s with fields %s is not in the generated source' % (name, sorted(d)))
+    return Adt(name, 0, [to_smi(d[f]) for f in order[0]])
+
+
+def rust_lit(s):
+    return '"' + ''.join(c if (32 <= ord(c) < 127 and c not in '"\\') else '\\u{%x}' % ord(c) for c in s) + '"'
+
+
+def to_rust(node, structs):
+    k = node[0]
+    if k == 'str':
+        return '%s.to_string()' % rust_lit(node[1])
+    if k == 'some':
+        return 'Some(%s)' % to_rust(node[1], structs)
+    if k == 'none':
+        return 'None'
+    if k == 'vec':
+        return 'vec![%s]' % ', '.join(to_rust(n, structs) for n in node[1])
+    _, name, fields = node
+    mod = structs[name][0]
+    kw = {'type', 'fn', 'mod', 'use', 'ref', 'match', 'self', 'in', 'as', 'box', 'move', 'loop'}
+    return '%s::%s { %s }' % (mod, name, ', '.join('%s: %s' % (('r#' + f) if f in kw else f, to_rust(n, structs)) for f, n in fields))
+
+
+# ------------------------------------------------------------------------------------------------ native driver for replay / validation
+DRIVER_TARGET = os.path.join(BUILD, 'gen_driver_target')
+
+
+def native_results(work, root, structs, cases):
+    """compile the generated file with a main that builds each case and runs check_restrictions(None); -> list of
+    'OK' | 'ERR <message>' | 'PANIC'"""
+    d = os.path.join(GEN_DIR, os.path.basename(work) + '_driver')
+    os.makedirs(os.path.join(d, 'src'), exist_ok=True)
+    toml = open(os.path.join(work, 'Cargo.toml')).read().replace('name = "zeep-generated"', 'name = "zeep-generated-driver"')
+    open(os.path.join(d, 'Cargo.toml'), 'w').write(toml)
+    shutil.copyfile(os.path.join(work, 'Cargo.lock'), os.path.join(d, 'Cargo.lock'))
+    shutil.copyfile(os.path.join(work, 'src/generated.rs'), os.path.join(d, 'src/generated.rs'))
+    mod = structs[root][0]
+    body = ['#![allow(unused, clippy::all)]', 'mod generated;', 'use generated::*;', 'use generated::restrictions::CheckRestrictions;', 'fn main() {']
+    for i, c in enumerate(cases):
+        body.append('    {')
+        body.append('        let r = std::panic::catch_unwind(|| { let v = %s; v.check_restrictions(None) });' % to_rust(c, structs))
+        body.append('        match r { Ok(Ok(())) => println!("%d OK"), Ok(Err(e)) => println!("%d ERR {}", e), Err(_) => println!("%d PANIC") }' % (i, i, i))
+        body.append('    }')
+    body.append('}')
+    open(os.path.join(d, 'src/main.rs'), 'w').write('\n'.join(body) + '\n')
+    with Lock('gen_driver'):
+        rc, out, _ = run(['cargo', 'build', '--offline', '--target-dir', DRIVER_TARGET], cwd=d, timeout=1800)
+        if rc != 0:
+            raise RuntimeError('the generated code (or the driver built around it) does not compile:\n' + out[-3000:])
+        rc, out, _ = run([os.path.join(DRIVER_TARGET, 'debug/zeep-generated-driver')], timeout=300)
+    res = {}
+    for l in out.split('\n'):
+        m = re.match(r'(\d+) (OK|ERR .*|PANIC)$', l)
+        if m:
+            res[int(m.group(1))] = m.group(2)
+    return [res.get(i) for i in range(len(cases))]
